@@ -167,7 +167,7 @@ static void op_eval(struct arg *a, int n, FILE *out) {
 
 	config_init(&cl);
 	if (config_parse(&cl, confpath, &env) || VECTOR_LENGTH(cl.cl_list) == 0) { fputs("CONFERR", out); return; }
-	snprintf(dirpath, sizeof(dirpath), "%s/md/%s", tdir, (const char *)a[2].p);
+	snprintf(dirpath, sizeof(dirpath), "%s/%s", tdir, (const char *)a[2].p);
 	snprintf(fpath, sizeof(fpath), "%s/%s", dirpath, (const char *)a[3].p);
 	fputs("PATH ", out); hexs(out, fpath);
 	fputs(" AST", out);
@@ -291,6 +291,9 @@ int main(void) {
 	snprintf(p, sizeof(p), "%s/md/new", tdir); mkdir(p, 0700);
 	snprintf(p, sizeof(p), "%s/md/cur", tdir); mkdir(p, 0700);
 	snprintf(p, sizeof(p), "%s/yes", tdir); mkdir(p, 0700);
+	snprintf(p, sizeof(p), "%s/a:b", tdir); mkdir(p, 0700);
+	snprintf(p, sizeof(p), "%s/a:b/new", tdir); mkdir(p, 0700);
+	snprintf(p, sizeof(p), "%s/a:b/cur", tdir); mkdir(p, 0700);
 	setlocale(LC_CTYPE, "");
 	while (getline(&line, &cap, stdin) > 0) {
 		pid_t pid;
